@@ -42,7 +42,7 @@ ITER_SRC = ["IntoIterator::into_iter", "Iterator::by_ref"]
 FORBIDDEN = ["Iterator::filter", "Iterator::filter_map", "Iterator::skip_while", "Iterator::skip", "Iterator::step_by",
              "Iterator::rev", "Iterator::flat_map", "Iterator::flatten", "Iterator::chain", "Iterator::cycle",
              "Iterator::take", "Iterator::scan", "Iterator::zip", "Iterator::last", "Iterator::nth", "Iterator::find",
-             "Iterator::find_map", "Iterator::position", "Iterator::fuse", "Iterator::peekable", "Iterator::enumerate",
+             "Iterator::find_map", "Iterator::position", "Iterator::fuse", "Iterator::peekable",
              "Iterator::intersperse", "Iterator::max", "Iterator::min", "Iterator::partition", "Iterator::dedup"]
 ERR_WRAP = ["Try::branch", "Context::context", "Context::with_context", "Result::map_err", "Option::unwrap", "Option::expect",
             "Result::unwrap", "Result::expect"]
@@ -256,6 +256,14 @@ def r_parse(rep, c, st):
     P = "parse_test_config"
 
     joins = f.calls(JOIN)
+    sb = string_builder(f) if not joins else None
+    if sb is not None:
+        bad = [(g, x) for g in [f] + cls for x in g.calls(FORBIDDEN)]
+        rep.ob("R34.1", f"{P}: no filter / skip_while / filter_map / other selecting adaptor is applied to the lines",
+               not bad, "calls " + ", ".join(short(x) for _, x in bad), bad[0][0].loc(bad[0][1].bb) if bad else f.loc())
+        st["text_arg"], st["marker_arg"] = string_loop_form(rep, c, f, sb)
+        parser_tail(rep, f, sb.bb)
+        return
     rep.floor("R34.4", "join sites in parse_test_config", len(joins), 1)
     rep.ob("R34.4", f"{P}: the configuration text is built by exactly one join", len(joins) == 1, f"{len(joins)} join calls", f.loc())
     if len(joins) != 1:
@@ -353,6 +361,22 @@ def r_parse(rep, c, st):
     rep.ob("R34.4", f"{P}: the pieces are joined with a single newline", mir_ok and syn_ok,
            f"separator is {desc(o)}; source literal(s) {syn_lits!r}", f.loc(join.bb))
 
+    parser_tail(rep, f, join.bb)
+
+
+def string_builder(f):
+    """the `String::new()` whose value is what toml::from_str receives (text assembled by push / push_str), if any"""
+    parsers = [x for x in f.calls() if x.matches(TOML_FROM_STR)]
+    if len(parsers) != 1:
+        return None
+    o, _ = trace(f, parsers[0].args[0], VIEW)
+    if o.get("kind") == "call" and o["call"].matches(["String::new", "String::with_capacity"]):
+        return o["call"]
+    return None
+
+
+def parser_tail(rep, f, text_bb):
+    P = "parse_test_config"
     parsers = [x for x in f.calls() if x.matches(TOML_FROM_STR)]
     rep.floor("R34.4", "toml::from_str sites in parse_test_config", len(parsers), 1)
     rep.ob("R34.4", f"{P}: the text is parsed once, by toml::from_str", len(parsers) == 1,
@@ -360,7 +384,7 @@ def r_parse(rep, c, st):
            f.loc())
     for p in parsers:
         o, _ = trace(f, p.args[0], VIEW)
-        rep.ob("R34.4", f"{P}: toml::from_str receives exactly the joined text", o.get("kind") == "call" and o["call"].bb == join.bb,
+        rep.ob("R34.4", f"{P}: toml::from_str receives exactly the joined text", o.get("kind") == "call" and o["call"].bb == text_bb,
                f"it receives the {desc(o)}", f.loc(p.bb))
         rep.ob("R34.4", f"{P}: every return passes toml::from_str", every_return_passes(f, [p.bb]), "", f.loc(p.bb))
         defs0 = [d for d in f.defs.get(0, []) if d[0] in f.live]
@@ -379,6 +403,145 @@ def r_parse(rep, c, st):
                 cs = []
             ok = ok and any(x.bb == p.bb for x in cs)
         rep.ob("R34.4", f"{P}: what is returned is derived from the parser's result", ok, "", f.loc(p.bb))
+
+
+def no_inner_cycle(f, bb, head):
+    """bb lies on no cycle that avoids the loop head"""
+    return all(bb not in f.reachable(x, avoid=[head]) for x in f.succ[bb])
+
+
+def string_loop_form(rep, c, f, S):
+    """let mut text = String::new();
+       for (i, line) in src.lines().enumerate() { let Some(p) = line.strip_prefix(marker) else { break };
+                                                  if i > 0 { text.push('\n') } text.push_str(p) }
+    Equal to join("\n") of the leading pieces: every kept line appended once, in order, one newline before each but the
+    first (the enumerate index counts kept lines because the loop leaves at the first other line)."""
+    P = "parse_test_config"
+
+    def is_S(op):
+        o = f.origin(op)
+        return o.get("kind") == "call" and o["call"].bb == S.bb
+
+    nexts = f.calls("Iterator::next")
+    rep.floor("R34.1", "Iterator::next sites of the line loop", len(nexts), 1)
+    rep.ob("R34.1", f"{P}: one loop over the lines", len(nexts) == 1 and f.in_cycle(nexts[0].bb), f"{len(nexts)} next() calls", f.loc())
+    if len(nexts) != 1:
+        return None, None
+    N = nexts[0]
+    o, passed = trace(f, N.args[0], ITER_SRC + ["Iterator::enumerate"])
+    n_enum = sum(1 for x in passed if x.matches("Iterator::enumerate"))
+    text_arg = None
+    ok = o.get("kind") == "call" and o["call"].matches(LINES) and n_enum <= 1
+    if ok:
+        t = f.origin(o["call"].args[0])
+        ok = plain_arg(t)
+        text_arg = t["n"] if ok else None
+    rep.ob("R34.1", f"{P}: the lines are those of the text parameter (text.lines())", ok,
+           f"the loop iterates the {desc(o)} ({n_enum} enumerate)", f.loc(N.bb))
+    line_f = [".0", ".1"] if n_enum else [".0"]
+
+    def item(o_, want):
+        return o_.get("kind") == "call" and o_["call"].bb == N.bb and "as Some" in o_.get("proj", []) and fields(o_) == want
+
+    some_t = None
+    for b, m, od in discr_switches(f):
+        of = od.get("of", {})
+        if of.get("kind") == "call" and of["call"].bb == N.bb:
+            some_t = variant_target(m, "Some")
+    tests = f.calls(STARTS_WITH) + f.calls(STRIP_PREFIX)
+    rep.floor("R34.2", "starts_with / strip_prefix tests in the selector predicate", len(tests), 1)
+    marker_arg = None
+    for x in tests:
+        b_ = f.origin(x.args[1])
+        if plain_arg(b_):
+            marker_arg = b_["n"]
+    rep.ob("R34.2", f"{P}: the marker tested for is the function's other parameter", marker_arg is not None and marker_arg != text_arg,
+           f"marker parameter #{marker_arg}, text parameter #{text_arg}", f.loc())
+    roles = Roles(lambda o_: item(o_, line_f), lambda o_: plain_arg(o_, marker_arg))
+    sw = acc_t = rej_t = None
+    piece_ok = None
+    why = f"{len(tests)} prefix tests"
+    if len(tests) == 1 and tests[0].matches(STRIP_PREFIX):
+        T = tests[0]
+        ok, why = strip_shape(f, {"kind": "call", "call": T}, roles)
+        for b, m, od in discr_switches(f):
+            of = od.get("of", {})
+            if ok and of.get("kind") == "call" and of["call"].bb == T.bb and not fields(of):
+                sw, acc_t, rej_t = b, variant_target(m, "Some"), variant_target(m, "None")
+
+        def piece_ok(o_):
+            return (o_.get("kind") == "call" and o_["call"].bb == T.bb and "as Some" in o_.get("proj", []) and
+                    fields(o_) == [".0"]), f"the piece appended is {desc(o_)}"
+    elif len(tests) == 1:
+        ok, why, _ = prefix_test(f, {"kind": "call", "call": tests[0]}, roles)
+        sws = bool_switches_on_call(f, STARTS_WITH)
+        if ok and len(sws) == 1:
+            sw, rej_t, acc_t = sws[0]
+
+        def piece_ok(o_):
+            return strip_shape(f, o_, roles)
+    structured = sw is not None and acc_t is not None and rej_t is not None and some_t is not None
+    rep.ob("R34.2", f"{P}: take_while predicate is exactly `line.starts_with(marker)`", structured, why,
+           f.loc(tests[0].bb) if tests else f.loc())
+    if not structured:
+        rep.ob("R34.1", f"{P}: the loop leaves at the first line that does not start with the marker", False,
+               "loop structure not recognised", f.loc(N.bb))
+        return text_arg, marker_arg
+    rep.ob("R34.1", f"{P}: the loop leaves at the first line that does not start with the marker", N.bb not in f.reachable(rej_t),
+           "the non-matching edge continues with the next line (this is a filter, not a prefix)", f.loc(sw))
+    rep.ob("R34.1", f"{P}: the prefix selector is applied directly to lines() (before any mapping of the lines)",
+           N.bb not in f.reachable(some_t, avoid_edges=[(sw, acc_t)]),
+           "a path returns to next() without passing the matching edge of the prefix test", f.loc(sw))
+    # ---- what is appended to the text
+    muts = [x for x in f.calls() if any(is_S(a) for a in x.args) and not x.matches(VIEW)]
+    strs = [x for x in muts if x.matches("String::push_str")]
+    seps = [x for x in muts if x.matches("String::push")]
+    others = [x for x in muts if not x.matches(["String::push_str", "String::push"])]
+    rep.floor("R34.4", "join sites in parse_test_config", len(seps), 1)
+    rep.ob("R34.4", f"{P}: the configuration text is built by exactly one join", len(seps) == 1 and len(strs) == 1 and not others,
+           f"{len(strs)} push_str, {len(seps)} push sites on the text; also passed to {[short(x) for x in others]}", f.loc())
+    rep.ob("R34.1", f"{P}: only take_while/map_while, map, collect and views lie between lines() and join", not others,
+           "the text is also passed to " + ", ".join(short(x) for x in others), f.loc(others[0].bb) if others else f.loc())
+    rep.floor("R34.3", "map (marker removal) between take_while and join", len(strs), 1)
+    region = f.edge_region(sw, acc_t)
+    rep.ob("R34.3", f"{P}: exactly one map follows take_while", len(strs) == 1 and strs[0].bb in region and
+           f.all_paths_pass(acc_t, [N.bb], [strs[0].bb]) and no_inner_cycle(f, strs[0].bb, N.bb),
+           f"{len(strs)} push_str sites; every accepted line must be appended exactly once, on the matching edge", f.loc(sw))
+    for x in strs:
+        ok, why = piece_ok(f.origin(x.args[1]))
+        rep.ob("R34.3", f"{P}: each piece is the line with exactly the marker removed (line[marker.len()..])", ok, why, f.loc(x.bb))
+    # ---- the separator: one '\n' before every kept line but the first
+    ok, why = False, f"{len(seps)} separator push sites, {len(strs)} piece sites"
+    if len(seps) == 1 and len(strs) == 1:
+        sep, piece = seps[0], strs[0]
+        so = f.origin(sep.args[1])
+        ok = so.get("kind") == "const" and so.get("v") == 10 and "char" in str(so.get("ty"))
+        why = f"the separator is {desc(so)}"
+        if ok:
+            ok, why = False, "the separator is not guarded by `index > 0` on the enumerate index of lines()"
+            for b2, t2 in f.switches():
+                g_ = f.switch_origin(b2)
+                if g_.get("kind") != "bin" or n_enum != 1:
+                    continue
+                a_, b_ = g_["a"], g_["b"]
+                idx0 = (g_["op"] in ("Gt", "Ne") and item(a_, [".0", ".0"]) and b_.get("kind") == "const" and b_.get("v") == 0) or \
+                    (g_["op"] == "Ge" and item(a_, [".0", ".0"]) and b_.get("kind") == "const" and b_.get("v") == 1) or \
+                    (g_["op"] in ("Lt", "Ne") and item(b_, [".0", ".0"]) and a_.get("kind") == "const" and a_.get("v") == 0)
+                tg = f.switch_targets(b2)
+                if not idx0 or 0 not in tg:
+                    continue
+                true_t = tg["else"]
+                ok = sep.bb in f.edge_region(b2, true_t) and f.all_paths_pass(true_t, [piece.bb, N.bb] + f.returns(), [sep.bb]) and \
+                    sep.bb not in f.reachable(piece.bb, avoid=[N.bb]) - {piece.bb} and no_inner_cycle(f, sep.bb, N.bb) and \
+                    f.all_paths_pass(some_t, [piece.bb], [b2])
+                why = "index > 0 guard found" if ok else "the newline is not pushed exactly once before the piece on the `index > 0` edge"
+                break
+    rep.ob("R34.4", f"{P}: the pieces are joined with a single newline", ok, why, f.loc(seps[0].bb) if seps else f.loc())
+    parsers = [x for x in f.calls() if x.matches(TOML_FROM_STR)]
+    rep.ob("R34.4", f"{P}: the text is parsed after the loop has finished",
+           all(not f.in_cycle(p.bb) and f.set_dominates({N.bb}, p.bb) and N.bb not in f.reachable(p.bb) for p in parsers),
+           "toml::from_str is reached inside / before the line loop", f.loc())
+    return text_arg, marker_arg
 
 
 def map_while_shape(g, roles):
@@ -488,6 +651,100 @@ def loop_form(rep, c, f, join, chain, term):
 
 
 # ---------------------------------------------------------------------------------------------- R34.5
+def local_fn(c, call):
+    """the body of a called free function / inherent method of this crate (not a closure), if it is in the fact file"""
+    for n in call.names():
+        h = c.fns.get(n)
+        if h is not None and "{closure" not in h.path and n.startswith("crate::"):
+            return h
+    return None
+
+
+def words_value(c, g, o, src_ok):
+    """Is origin `o` in function g the value `src.split_whitespace()` with every word turned into an owned String, in order,
+    none dropped?  src_ok(origin) recognises the source string.  Forms: collect <- map(owned) <- split_whitespace <- src,
+    or a vector built by a loop that pushes owned(word) for every item of split_whitespace(src)."""
+    r = dict(ok=False, why="", sp=None, sp_ok=False, sp_why="", sp_loc=g.loc(), owned=[])
+    if o.get("kind") != "call":
+        r["why"] = f"the result is {desc(o)}"
+        return r
+    chain = [o["call"]]
+    o_ = g.origin(chain[0].args[0]) if chain[0].args else {"kind": "unknown"}
+    while o_.get("kind") == "call":
+        chain.append(o_["call"])
+        if not o_["call"].args:
+            break
+        o_ = g.origin(o_["call"].args[0])
+    names = [short(x) for x in chain]
+    if chain[0].matches(["Vec::new", "Vec::with_capacity"]) and not fields(o):
+        return words_loop(c, g, chain[0], src_ok, r)
+    sp = [x for x in chain if x.matches(SPLIT_WS)]
+    other = [x for x in chain if not (x.matches(SPLIT_WS) or x.matches(MAP) or x.matches(COLLECT) or x.matches(VIEW))]
+    r["ok"] = len(sp) == 1 and not other and chain[0].matches(COLLECT) and src_ok(o_)
+    r["why"] = f"chain {' <- '.join(names)} ends at {desc(o_)}"
+    if sp:
+        v, _ = trace(g, sp[0].args[0], VIEW)
+        r.update(sp=sp[0], sp_ok=src_ok(v), sp_why=f"applied to {desc(v)}", sp_loc=g.loc(sp[0].bb))
+    for mcall in [x for x in chain if x.matches(MAP)]:
+        h, _ = closure_of(c, g, mcall.args[1])
+        if h is None:
+            fo = g.origin(mcall.args[1])
+            ok = fo.get("kind") == "const" and bool(
+                re.search(r"to_string$|to_owned$|String::from$|From>::from$|Into>::into$", str(fo.get("fn", ""))))
+            r["owned"].append((ok, f"mapping function is {desc(fo)}", g.loc(mcall.bb)))
+            continue
+        ro = ret_origin(h)
+        ok = ro.get("kind") == "call" and ro["call"].matches(OWNED_STR) and plain_arg(h.origin(ro["call"].args[0]), 2) and \
+            len(h.calls()) == 1
+        r["owned"].append((ok, f"the mapping closure returns the {desc(ro)} (calls: {[short(x) for x in h.calls()]})", h.loc()))
+    return r
+
+
+def words_loop(c, g, V, src_ok, r):
+    """let mut v = Vec::new(); for w in src.split_whitespace() { v.push(owned(w)) } v"""
+    def is_V(op):
+        o = g.origin(op)
+        return o.get("kind") == "call" and o["call"].bb == V.bb
+
+    nexts = g.calls("Iterator::next")
+    if len(nexts) != 1 or not g.in_cycle(nexts[0].bb):
+        r["why"] = f"a vector built with {len(nexts)} next() loops"
+        return r
+    N = nexts[0]
+    o, _ = trace(g, N.args[0], ITER_SRC)
+    if o.get("kind") != "call" or not o["call"].matches(SPLIT_WS):
+        r["why"] = f"the loop iterates the {desc(o)}, not split_whitespace()"
+        return r
+    sp = o["call"]
+    v, _ = trace(g, sp.args[0], VIEW)
+    r.update(sp=sp, sp_ok=src_ok(v), sp_why=f"applied to {desc(v)}", sp_loc=g.loc(sp.bb))
+    some_t = None
+    for b, m, od in discr_switches(g):
+        of = od.get("of", {})
+        if of.get("kind") == "call" and of["call"].bb == N.bb:
+            some_t = variant_target(m, "Some")
+    muts = [x for x in g.calls() if any(is_V(a) for a in x.args) and not x.matches(VIEW)]
+    pushes = [x for x in muts if x.matches("Vec::push")]
+    others = [x for x in muts if not x.matches("Vec::push")]
+    if some_t is None or len(pushes) != 1 or others:
+        r["why"] = f"{len(pushes)} push sites, vector also passed to {[short(x) for x in others]}"
+        return r
+    p = pushes[0]
+    rets = g.returns()
+    every = g.all_paths_pass(some_t, [N.bb] + rets, [p.bb]) and no_inner_cycle(g, p.bb, N.bb) and \
+        not (g.reachable(some_t, avoid=[N.bb]) & set(rets))
+    r["ok"] = bool(every and src_ok(v))
+    r["why"] = "loop pushing every word of split_whitespace()" if every else \
+        "not every word is pushed exactly once (a path skips the push, repeats it, or leaves the loop early)"
+    po = g.origin(p.args[1])
+    ok = po.get("kind") == "call" and po["call"].matches(OWNED_STR)
+    if ok:
+        w = g.origin(po["call"].args[0])
+        ok = w.get("kind") == "call" and w["call"].bb == N.bb and "as Some" in w.get("proj", []) and fields(w) == [".0"]
+    r["owned"].append((ok, f"the value pushed is the {desc(po)}", g.loc(p.bb)))
+    return r
+
+
 def string_list_switch(f):
     out = []
     for b, m, o in discr_switches(f):
@@ -527,50 +784,43 @@ def r_from(rep, c):
         return o_.get("kind") == "arg" and o_["n"] == 1 and ("as " + variant) in pr and fields(o_) == [".0"]
 
     # ---- String arm
-    splits = [x for x in f.calls(ANY_SPLIT) if x.bb in rs]
     for g in c.closures_of(f):
         rep.saw(g)
-        splits += g.calls(ANY_SPLIT)
-    rep.floor("R34.5", "split calls in the String arm", len(splits), 1)
-    rep.ob("R34.5", f"{F}: String arm splits only with split_whitespace", len(splits) == 1 and splits[0].matches(SPLIT_WS),
-           "split calls: " + ", ".join(short(x) for x in splits), f.loc(splits[0].bb) if splits and splits[0].bb in rs else f.loc(b))
+    splits = [x for x in f.calls(ANY_SPLIT) if x.bb in rs] + [x for g in c.closures_of(f) for x in g.calls(ANY_SPLIT)]
+    results = []
     for bb, i, kind, payload in in_s:
         if kind != "call":
             rep.ob("R34.5", f"{F}: String arm result = payload.split_whitespace() mapped to owned strings, collected", False,
                    "the result is not produced by collecting an iterator", f.loc(bb))
             continue
         call = mir.Call(bb, payload)
-        chain = [call]
-        o_ = f.origin(call.args[0]) if call.args else {"kind": "unknown"}
-        while o_.get("kind") == "call":
-            chain.append(o_["call"])
-            if not o_["call"].args:
-                break
-            o_ = f.origin(o_["call"].args[0])
-        names = [short(x) for x in chain]
-        sp = [x for x in chain if x.matches(SPLIT_WS)]
-        other = [x for x in chain if not (x.matches(SPLIT_WS) or x.matches(MAP) or x.matches(COLLECT) or x.matches(VIEW))]
-        ok = len(sp) == 1 and not other and chain[0].matches(COLLECT) and payload_of(o_, "String")
-        rep.ob("R34.5", f"{F}: String arm result = payload.split_whitespace() mapped to owned strings, collected", ok,
-               f"chain {' <- '.join(names)} ends at {desc(o_)}", f.loc(bb))
-        if sp:
-            v, _ = trace(f, sp[0].args[0], VIEW)
-            rep.ob("R34.5", f"{F}: split_whitespace is applied to the whole string payload", payload_of(v, "String"),
-                   f"applied to {desc(v)}", f.loc(sp[0].bb))
-        maps = [x for x in chain if x.matches(MAP)]
-        for mcall in maps:
-            h, _ = closure_of(c, f, mcall.args[1])
-            if h is None:
-                fo = f.origin(mcall.args[1])
-                ok = fo.get("kind") == "const" and bool(
-                    re.search(r"to_string$|to_owned$|String::from$|From>::from$|Into>::into$", str(fo.get("fn", ""))))
-                rep.ob("R34.5", f"{F}: each word is converted to an owned string unchanged", ok, f"mapping function is {desc(fo)}", f.loc(mcall.bb))
+        g, where, src_ok = f, {"kind": "call", "call": call}, (lambda o_: payload_of(o_, "String"))
+        helper = local_fn(c, call)
+        pre = ""
+        if helper is not None and len(call.args) == 1 and helper.argc == 1:
+            # a private helper of the same crate: its result must be the words of its parameter, and it gets the payload
+            rep.saw(helper)
+            for h in c.closures_of(helper):
+                rep.saw(h)
+            v, _ = trace(f, call.args[0], VIEW)
+            splits += helper.calls(ANY_SPLIT) + [x for h in c.closures_of(helper) for x in h.calls(ANY_SPLIT)]
+            if not payload_of(v, "String"):
+                rep.ob("R34.5", f"{F}: String arm result = payload.split_whitespace() mapped to owned strings, collected", False,
+                       f"helper {short(call)} is applied to {desc(v)}, not to the string payload", f.loc(bb))
                 continue
-            ro = ret_origin(h)
-            ok = ro.get("kind") == "call" and ro["call"].matches(OWNED_STR) and plain_arg(h.origin(ro["call"].args[0]), 2) and \
-                len(h.calls()) == 1
-            rep.ob("R34.5", f"{F}: each word is converted to an owned string unchanged", ok,
-                   f"the mapping closure returns the {desc(ro)} (calls: {[short(x) for x in h.calls()]})", h.loc())
+            pre = f"via helper {short(call)}: "
+            g, where, src_ok = helper, ret_origin(helper), (lambda o_: plain_arg(o_, 1))
+        results.append((bb, pre, words_value(c, g, where, src_ok)))
+    rep.floor("R34.5", "split calls in the String arm", len(splits), 1)
+    rep.ob("R34.5", f"{F}: String arm splits only with split_whitespace", len(splits) == 1 and splits[0].matches(SPLIT_WS),
+           "split calls: " + ", ".join(short(x) for x in splits), f.loc(b))
+    for bb, pre, r in results:
+        rep.ob("R34.5", f"{F}: String arm result = payload.split_whitespace() mapped to owned strings, collected", r["ok"],
+               pre + r["why"], f.loc(bb))
+        if r["sp"] is not None:
+            rep.ob("R34.5", f"{F}: split_whitespace is applied to the whole string payload", r["sp_ok"], pre + r["sp_why"], r["sp_loc"])
+        for ok, why, loc in r["owned"]:
+            rep.ob("R34.5", f"{F}: each word is converted to an owned string unchanged", ok, pre + why, loc)
     # ---- List arm
     for bb, i, kind, payload in in_l:
         ok = False
